@@ -208,7 +208,9 @@ func (it *Iterator) Value() []byte {
 
 // Valid returns true if the iterator is positioned at a valid entry
 func (it *Iterator) Valid() bool {
-	return it.currentKey != nil && len(it.currentKey) > 0
+	// A zero-length key is a key like any other (the engine accepts it and it
+	// sorts first); only nil means "not positioned"
+	return it.currentKey != nil
 }
 
 // IsTombstone returns true if the current entry is a deletion marker
